@@ -544,7 +544,11 @@ Inductive val_arg (sw : bytes) (d : cmddef) (name : bytes) (is_string : bool) : 
           val_arg sw d name is_string (VStr s) (TyString, VStr s)
 (* a string list handed over as its text "[a,b]" (what FiltersSet.__quote_list produces) *)
 | va_qlist : forall vs, sw = [] -> vs <> [] -> Forall exact_string vs ->
-             val_arg sw d name is_string (VStr (91%N :: join [44%N] vs ++ [93%N])) (TyStringList, VList vs).
+             val_arg sw d name is_string (VStr (91%N :: join [44%N] vs ++ [93%N])) (TyStringList, VList vs)
+(* a Python list of strings that are not quoted yet (the extension names of FiltersSet.requires): Command.tosieve
+   puts the quotes around each item *)
+| va_rawlist : forall vs, sw = [32%N] -> vs <> [] -> Forall exact_string (map print_item vs) -> plain_name d name ->
+               val_arg sw d name is_string (VList vs) (TyStringList, VList (map print_item vs)).
 
 (* the maps [am] / [em] of a node, read slot by slot in the order of the definition, are the arguments [args] *)
 Inductive slots_args (sw : bytes) (d : cmddef) (am em : list (bytes * aval)) : list argdef -> list argument -> Prop :=
@@ -590,7 +594,10 @@ Proof.
 Qed.
 
 Lemma val_arg_pr : forall sw d name b v p, val_arg sw d name b v p -> arg_pr p.
-Proof. intros sw d name b v p H. destruct H; cbn; auto. Qed.
+Proof.
+  intros sw d name b v p H. destruct H; cbn; auto.
+  split; [|assumption]. destruct vs; [congruence|discriminate].
+Qed.
 
 Lemma ml_starts : forall s, ml_ok s -> starts_with [34%N] s = false /\ starts_with [91%N] s = false.
 Proof.
@@ -602,7 +609,7 @@ Qed.
 Lemma val_layout : forall sw d pt0 pti name b v p,
   val_arg sw d name b v p -> p_value d pt0 pti b name v = lrender (lt_arg sw [] p) ++ carry_of p.
 Proof.
-  intros sw d pt0 pti name b v p H. destruct H as [s Hs|s Hs Hb|vs Hsw Hne Hall Hpl|s Hk Hm Hb|vs Hsw Hne Hall]; cbn [p_value lt_arg lrender app].
+  intros sw d pt0 pti name b v p H. destruct H as [s Hs|s Hs Hb|vs Hsw Hne Hall Hpl|s Hk Hm Hb|vs Hsw Hne Hall|vs Hsw Hne Hall Hpl]; cbn [p_value lt_arg lrender app].
   - unfold carry_of. rewrite (is_ml_exact s Hs).
     unfold print_scalar. rewrite (exact_starts_quote s Hs). cbn [orb]. destruct b; rewrite ?app_nil_r; reflexivity.
   - subst b. unfold print_scalar. rewrite !app_nil_r. reflexivity.
@@ -617,6 +624,12 @@ Proof.
     rewrite lrender_app, (join_items_layout [] vs [] Hne). cbn [lrender app].
     unfold print_scalar. cbn [starts_with N.eqb Pos.eqb andb orb]. rewrite !app_nil_r.
     destruct b; reflexivity.
+  - subst sw. assert (Hne' : map print_item vs <> []) by (destruct vs; [congruence|discriminate]).
+    assert (Hp : print_items vs = 91%N :: lrender (lt_items [32%N] [] (map print_item vs) ++ [([], TRightBracket, [93%N])])).
+    { unfold print_items. rewrite lrender_app, (join_items_layout [32%N] (map print_item vs) [] Hne'). reflexivity. }
+    unfold carry_of. cbn [is_ml]. rewrite app_nil_r.
+    unfold plain_name in Hpl. destruct (find_def (d_args d) name) as [a0|]; [|exact Hp].
+    destruct (a_type a0) as [|[] [|y l]]; try exact Hp. contradiction.
 Qed.
 
 Definition args_text (sw : bytes) (args : list argument) : bytes :=
@@ -935,22 +948,26 @@ Fixpoint lt_cms (w : bytes) (cms : list bytes) : list ltok :=
 Definition lt_top (w : bytes) (x : list bytes * gcmd) : list ltok :=
   lt_cms w (fst x) ++ lt_cmd 0 (match fst x with [] => w | _ => [10%N] end) (snd x).
 
-Fixpoint lt_tops (w : bytes) (tops : list (list bytes * gcmd)) : list ltok :=
-  match tops with [] => [] | x :: r => lt_top w x ++ lt_tops [10%N] r end.
+(* a top-level item: extra white space written before it (FiltersSet.tosieve leaves a blank line after the require
+   line), its comment lines, its command *)
+Definition xtop := (bytes * (list bytes * gcmd))%type.
 
-Definition tops_text (tops : list (list bytes * gcmd)) : bytes := lrender (lt_tops [] tops) ++ [10%N].
+Fixpoint lt_tops (w : bytes) (tops : list xtop) : list ltok :=
+  match tops with [] => [] | x :: r => lt_top (w ++ fst x) (snd x) ++ lt_tops [10%N] r end.
+
+Definition tops_text (tops : list xtop) : bytes := lrender (lt_tops [] tops) ++ [10%N].
 
 Lemma ltoks_cms : forall cms w, ltoks (lt_cms w cms) = ctoks cms.
 Proof. induction cms as [|x r IH]; intro w; [reflexivity|]. cbn [lt_cms ctoks map]. rewrite ltoks_cons. f_equal. apply IH. Qed.
 
-Lemma ltoks_tops : forall tops w, ltoks (lt_tops w tops) = flat_map toks_top tops.
+Lemma ltoks_tops : forall tops w, ltoks (lt_tops w tops) = flat_map toks_top (map snd tops).
 Proof.
-  induction tops as [|[cms c] r IH]; intro w; [reflexivity|].
-  cbn [lt_tops flat_map]. unfold lt_top. cbn [fst snd]. rewrite !ltoks_app, ltoks_cms, ltoks_cmd, IH.
+  induction tops as [|[ex [cms c]] r IH]; intro w; [reflexivity|].
+  cbn [lt_tops flat_map map fst snd]. unfold lt_top. cbn [fst snd]. rewrite !ltoks_app, ltoks_cms, ltoks_cmd, IH.
   change (toks_top (cms, c)) with (ctoks cms ++ toks_cmd c). rewrite <- app_assoc. reflexivity.
 Qed.
 
-Definition top_pr (x : list bytes * gcmd) : Prop := Forall hash_ok (fst x) /\ cmd_pr (snd x).
+Definition top_pr (x : xtop) : Prop := all_space (fst x) /\ Forall hash_ok (fst (snd x)) /\ cmd_pr (snd (snd x)).
 
 Lemma lt_cmd_head : forall c ind w, exists name r, lt_cmd ind w c = (w ++ sp ind, TIdentifier, name) :: r.
 Proof. intros [name args|name t body|name body] ind w; cbn [lt_cmd]; eauto. Qed.
@@ -965,17 +982,18 @@ Qed.
 
 Lemma lchain_tops : forall tops w X, all_space w -> Forall top_pr tops -> lchain (lt_tops w tops) X.
 Proof.
-  induction tops as [|[cms c] r IH]; intros w X Hw Hall; [exact I|].
-  inversion Hall as [|x' r' [Hcm Hc] Hr]; subst. cbn [fst snd] in *. cbn [lt_tops]. unfold lt_top. cbn [fst snd].
+  induction tops as [|[ex [cms c]] r IH]; intros w X Hw Hall; [exact I|].
+  inversion Hall as [|x' r' [Hex [Hcm Hc]] Hr]; subst. cbn [fst snd] in *. cbn [lt_tops fst snd]. unfold lt_top. cbn [fst snd].
+  assert (Hw' : all_space (w ++ ex)) by (apply space_app; assumption).
   rewrite <- app_assoc. apply lchain_app.
   - destruct cms as [|c1 cr]; [exact I|].
-    apply lchain_cms; [exact Hw|exact Hcm|].
+    apply lchain_cms; [exact Hw'|exact Hcm|].
     destruct (lt_cmd_head c 0 [10%N]) as (nm & r0 & E). rewrite lrender_app, E. cbn [lrender app]. eexists. reflexivity.
-  - apply lchain_app; [apply lchain_cmd; [exact Hc|destruct cms; [exact Hw|exact space_10]]|apply IH; [exact space_10|exact Hr]].
+  - apply lchain_app; [apply lchain_cmd; [exact Hc|destruct cms; [exact Hw'|exact space_10]]|apply IH; [exact space_10|exact Hr]].
 Qed.
 
 Theorem tops_lex : forall tops, Forall top_pr tops ->
-  snd (lex (tops_text tops)) = None /\ map strip_pos (fst (lex (tops_text tops))) = flat_map toks_top tops.
+  snd (lex (tops_text tops)) = None /\ map strip_pos (fst (lex (tops_text tops))) = flat_map toks_top (map snd tops).
 Proof.
   intros tops Hp. unfold tops_text.
   destruct (lex_lrender (lt_tops [] tops) [10%N] (lchain_tops tops [] [10%N] space_nil Hp) space_10) as (A & B).
@@ -984,19 +1002,20 @@ Qed.
 
 (* a commented script, laid out that way, parses to its tree with the comments attached *)
 Theorem tops_parse : forall T tops ns L',
-  twf_tables T = true -> wf_tops T [] None tops ns L' -> Forall top_pr tops ->
+  twf_tables T = true -> wf_tops T [] None (map snd tops) ns L' -> Forall top_pr tops ->
   parse T (tops_text tops) = Accept ns.
 Proof.
   intros T tops ns L' HT Hwf Hp. destruct (tops_lex tops Hp) as (A & B).
-  exact (parse_commented_script T (tops_text tops) tops ns L' HT A B Hwf).
+  exact (parse_commented_script T (tops_text tops) (map snd tops) ns L' HT A B Hwf).
 Qed.
 
-(* what FiltersSet.tosieve writes: for each item its comment lines, then its tree *)
-Definition set_text (f : nat) (items : list (list bytes * node)) : bytes :=
-  concat (map (fun x => concat (map (fun c => c ++ [10%N]) (fst x)) ++ tosieve f (snd x) 0) items).
+(* what FiltersSet.tosieve writes: for each item the extra white space, its comment lines, then its tree *)
+Definition xitem := (bytes * (list bytes * node))%type.
+Definition set_text (f : nat) (items : list xitem) : bytes :=
+  concat (map (fun x => fst x ++ concat (map (fun c => c ++ [10%N]) (fst (snd x))) ++ tosieve f (snd (snd x)) 0) items).
 
-Definition top_canon (x : list bytes * gcmd) (y : list bytes * node) : Prop :=
-  fst x = fst y /\ canon_cmd (snd x) (snd y).
+Definition top_canon (x : xtop) (y : xitem) : Prop :=
+  fst x = fst y /\ fst (snd x) = fst (snd y) /\ canon_cmd (snd (snd x)) (snd (snd y)).
 
 Lemma cms_text : forall cms w R, cms <> [] ->
   w ++ concat (map (fun c => c ++ [10%N]) cms) ++ R = lrender (lt_cms w cms) ++ 10%N :: R.
@@ -1007,23 +1026,25 @@ Proof.
   - rewrite <- !app_assoc. rewrite <- (IH [10%N] R) by discriminate. rewrite <- ?app_assoc. reflexivity.
 Qed.
 
+Definition tops_depth (tops : list xtop) : nat := fold_right (fun x m => Nat.max (dc (snd (snd x))) m) 0 tops.
+
 Theorem set_layout : forall tops items f,
-  Forall2 top_canon tops items -> tops <> [] ->
-  fold_right (fun x m => Nat.max (dc (snd x)) m) 0 tops <= f ->
+  Forall2 top_canon tops items -> tops <> [] -> tops_depth tops <= f ->
   set_text f items = tops_text tops.
 Proof.
-  intros tops items f H Hne Hd. unfold tops_text.
+  intros tops items f H Hne Hd. unfold tops_text, tops_depth in *.
   assert (G : forall w, tops <> [] -> w ++ set_text f items = lrender (lt_tops w tops) ++ [10%N]); [|exact (G [] Hne)].
-  clear Hne. induction H as [|[cms c] [cms' n] tops items [Hc Hn] Hr IH]; intros w Hne; [congruence|].
-  cbn [fst snd] in *. subst cms'. cbn [fold_right snd] in Hd.
+  clear Hne. induction H as [|[ex [cms c]] [ex' [cms' n]] tops items [He [Hc Hn]] Hr IH]; intros w Hne; [congruence|].
+  cbn [fst snd] in *. subst ex' cms'. cbn [fold_right fst snd] in Hd.
   assert (Tl : [10%N] ++ set_text f items = lrender (lt_tops [10%N] tops) ++ [10%N]).
   { destruct Hr as [|t0 i0 tops0 items0 H0 Hr0]; [reflexivity|]. apply IH; [lia|discriminate]. }
   unfold set_text. cbn [map concat fst snd]. fold (set_text f items).
-  cbn [lt_tops]. unfold lt_top. cbn [fst snd]. rewrite !lrender_app.
+  cbn [lt_tops fst snd]. unfold lt_top. cbn [fst snd]. rewrite !lrender_app.
   destruct cms as [|c1 cr].
   - cbn [map concat lt_cms lrender app].
-    rewrite app_assoc, (cmd_layout c n Hn f 0 w ltac:(lia)), <- !app_assoc, Tl. reflexivity.
-  - rewrite <- !app_assoc. rewrite (cms_text (c1 :: cr) w _ ltac:(discriminate)).
+    rewrite <- !app_assoc. rewrite (app_assoc w ex), (app_assoc (w ++ ex)).
+    rewrite (cmd_layout c n Hn f 0 (w ++ ex) ltac:(lia)), <- !app_assoc, Tl. reflexivity.
+  - rewrite <- !app_assoc. rewrite (app_assoc w ex). rewrite (cms_text (c1 :: cr) (w ++ ex) _ ltac:(discriminate)).
     f_equal.
     change (10%N :: tosieve f n 0 ++ set_text f items) with (([10%N] ++ tosieve f n 0) ++ set_text f items).
     rewrite (cmd_layout c n Hn f 0 [10%N] ltac:(lia)), <- !app_assoc, Tl. reflexivity.
@@ -1032,16 +1053,18 @@ Qed.
 (* the text FiltersSet.tosieve writes for trees that stand for a commented script parses to the tree of that
    script, every comment attached (stripped) to the command it precedes *)
 Theorem set_parses : forall T tops items ns L' f,
-  twf_tables T = true -> wf_tops T [] None tops ns L' ->
-  Forall2 top_canon tops items -> Forall (fun x => Forall hash_ok (fst x)) tops -> tops <> [] ->
-  fold_right (fun x m => Nat.max (dc (snd x)) m) 0 tops <= f ->
+  twf_tables T = true -> wf_tops T [] None (map snd tops) ns L' ->
+  Forall2 top_canon tops items ->
+  Forall (fun x => all_space (fst x) /\ Forall hash_ok (fst (snd x))) tops -> tops <> [] ->
+  tops_depth tops <= f ->
   parse T (set_text f items) = Accept ns.
 Proof.
   intros T tops items ns L' f HT Hwf Hc Hh Hne Hf.
   rewrite (set_layout tops items f Hc Hne Hf).
   apply (tops_parse T tops ns L' HT Hwf).
-  clear Hwf Hne Hf. induction Hc as [|x y tops items [_ H0] Hr IHr]; [constructor|].
-  inversion Hh as [|x' r' Hx Hr']; subst. constructor; [split; [exact Hx|apply (canon_cmd_pr _ _ H0)]|apply IHr; exact Hr'].
+  clear Hwf Hne Hf. induction Hc as [|x y tops items [_ [_ H0]] Hr IHr]; [constructor|].
+  inversion Hh as [|x' r' [Hx1 Hx2] Hr']; subst.
+  constructor; [split; [exact Hx1|split; [exact Hx2|apply (canon_cmd_pr _ _ H0)]]|apply IHr; exact Hr'].
 Qed.
 
 Print Assumptions set_parses.
